@@ -273,6 +273,7 @@ Proof.
   - cbn. repeat split; assumption.
   - unfold wait. rewrite Hl. cbn. repeat split; assumption.
   - unfold free. rewrite Hl. cbn. repeat split; assumption.
+  - cbn. repeat split; assumption.
   - cbn [exit_ fst]. unfold free. rewrite Hl. cbn. repeat split; assumption.
 Qed.
 
@@ -304,6 +305,7 @@ Proof.
     + eapply IH; eauto.
   - eapply IH; eauto.
   - eapply IH; eauto.
+  - eapply IH; eauto.
 Qed.
 
 (* the number of releases is 0 while live and 1 for ever after *)
@@ -325,6 +327,7 @@ Proof.
     + destruct o; try discriminate; cbn [step].
       * left. cbn. split; assumption.
       * unfold wait. rewrite Hl. left. cbn. split; [reflexivity|assumption].
+      * left. cbn. split; assumption.
     + right. pose proof (step_dead d now o Hd) as [A B]. split; [exact A | congruence].
 Qed.
 
@@ -388,6 +391,7 @@ Proof.
     + unfold wait. rewrite Hl.
       apply IH; [left; split; [reflexivity|]|reflexivity].
       destruct Hi as [[_ Hr]|[[Hl' _] _]]; [exact Hr | congruence].
+    + cbn [enter fst]. apply (IH d now Hi Hl).
 Qed.
 
 Lemma released_once p t0 ops :
@@ -423,6 +427,7 @@ Proof.
   - rewrite (wait_dead d now Hd). apply (IH d now Hd).
   - pose proof (step_dead d now Free Hd) as [A _]. cbn [step fst] in A.
     apply (IH (free d) now A).
+  - cbn [enter fst]. apply (IH d now Hd).
   - pose proof (step_dead d now (Exit exc) Hd) as [A _]. cbn [step fst] in A.
     apply (IH _ now A).
 Qed.
@@ -446,7 +451,7 @@ Definition is_raised (e : option exn) : bool :=
 Lemma exit_log_spec ops : forall s, exit_log s ops = map is_raised (exit_infos ops).
 Proof.
   induction ops as [|o ops IH]; intros s; [reflexivity|].
-  cbn [exit_log]. destruct o; cbn [exit_infos map]; [apply IH | apply IH | apply IH |].
+  cbn [exit_log]. destruct o; cbn [exit_infos map]; [apply IH | apply IH | apply IH | apply IH |].
   rewrite IH. f_equal.
 Qed.
 
@@ -490,3 +495,154 @@ Proof.
     cbn [fst snd] in *. apply (clock_dead post d now). split; assumption.
   - rewrite exit_log_app. f_equal. destruct h; reflexivity.
 Qed.
+
+(* ------------------------------------------------------------------ *)
+(* 5. __enter__: entering the with-block, at any time                   *)
+
+(* __enter__ returns the object itself and changes nothing *)
+Lemma enter_is_identity d : enter d = (d, true).
+Proof. reflexivity. Qed.
+
+(* ... so as an operation it is invisible: object, HAL and clock are what
+   they were *)
+Lemma step_enter s : step s Enter = s.
+Proof. destruct s. reflexivity. Qed.
+
+Lemma final_without_enter ops : forall s, final s (without_enter ops) = final s ops.
+Proof.
+  unfold final, without_enter.
+  induction ops as [|o ops IH]; intros s; [reflexivity|].
+  destruct o; cbn [filter is_enter negb fold_left]; try apply IH.
+  rewrite step_enter. apply IH.
+Qed.
+
+Lemma wait_log_without_enter ops : forall s, wait_log s (without_enter ops) = wait_log s ops.
+Proof.
+  unfold without_enter.
+  induction ops as [|o ops IH]; intros s; [reflexivity|].
+  destruct o; cbn [filter is_enter negb wait_log]; try (rewrite IH; reflexivity).
+  rewrite step_enter. apply IH.
+Qed.
+
+Lemma exit_log_without_enter ops : forall s, exit_log s (without_enter ops) = exit_log s ops.
+Proof.
+  unfold without_enter.
+  induction ops as [|o ops IH]; intros s; [reflexivity|].
+  destruct o; cbn [filter is_enter negb exit_log]; try (rewrite IH; reflexivity).
+  rewrite step_enter. apply IH.
+Qed.
+
+(* what the observer sees right after an __enter__ is what it saw before *)
+Lemma snaps_enter s ops : snaps s (Enter :: ops) = snap_of s :: snaps s ops.
+Proof. cbn [snaps]. rewrite step_enter. reflexivity. Qed.
+
+(* every __enter__ returns the object itself *)
+Lemma enter_log_spec ops : forall s,
+  enter_log s ops = map (fun _ => true) (filter is_enter ops).
+Proof.
+  induction ops as [|o ops IH]; intros s; [reflexivity|].
+  cbn [enter_log]. destruct o; cbn [filter is_enter map]; try apply IH.
+  rewrite IH. reflexivity.
+Qed.
+
+(* A live object under ANY use that does not release it -- bodies, waits and
+   __enter__ in any order and number (several bodies or none between two waits,
+   the with-block entered late, entered twice, ...): the (i+1)-th wait returns
+   at max(t_call, expiry + i*period). *)
+Definition no_release (ops : list op) : bool := forallb (fun o => negb (is_free o)) ops.
+
+Lemma live_log_any ops : forall d now i c r,
+  on_track d -> no_release ops = true ->
+  nth_error (wait_log (d, now) ops) i = Some (c, r) ->
+  r = Z.max c (expiry d + Z.of_nat i * period d).
+Proof.
+  induction ops as [|o ops IH]; intros d now i c r Ht Hn H.
+  - destruct i; discriminate.
+  - cbn [no_release forallb] in Hn. apply andb_prop in Hn. destruct Hn as [Ho Hn].
+    fold (no_release ops) in Hn.
+    destruct o; try discriminate Ho; cbn [wait_log step] in H.
+    + eapply IH; eauto.
+    + rewrite (wait_on_track d now Ht) in H. cbn [snd] in H.
+      destruct i as [|i]; cbn [nth_error] in H.
+      * injection H as <- <-. lia.
+      * apply IH in H; [|split; reflexivity|exact Hn]. cbn [expiry period] in H.
+        rewrite H, Nat2Z.inj_succ. f_equal. lia.
+    + cbn [enter fst] in H. eapply IH; eauto.
+Qed.
+
+Lemma final_live_any ops : forall d now,
+  on_track d -> no_release ops = true ->
+  let d' := fst (final (d, now) ops) in
+  on_track d' /\ period d' = period d /\ released d' = released d /\
+  expiry d' = expiry d + Z.of_nat (length (wait_log (d, now) ops)) * period d.
+Proof.
+  induction ops as [|o ops IH]; intros d now Ht Hn.
+  - cbn. repeat split; try apply Ht; lia.
+  - cbn [no_release forallb] in Hn. apply andb_prop in Hn. destruct Hn as [Ho Hn].
+    fold (no_release ops) in Hn.
+    unfold final. cbn [fold_left].
+    destruct o; try discriminate Ho; cbn [wait_log step].
+    + apply (IH d (now + b) Ht Hn).
+    + rewrite (wait_on_track d now Ht). cbn [snd length].
+      match goal with |- context [fold_left step ops (?d1, ?n1)] =>
+        specialize (IH d1 n1 (conj eq_refl eq_refl) Hn) end.
+      unfold final in IH. cbn [period expiry released] in IH.
+      destruct IH as (A & B & C & D). cbv zeta.
+      repeat split; try apply A; try assumption.
+      rewrite D, Nat2Z.inj_succ. lia.
+    + cbn [enter fst]. apply (IH d now Ht Hn).
+Qed.
+
+(* stated for the object the constructor builds *)
+Lemma any_use_on_grid p t0 ops i c r :
+  no_release ops = true ->
+  nth_error (wait_log (create p t0, t0) ops) i = Some (c, r) ->
+  r = Z.max c (grid t0 p (S i)) /\ grid t0 p (S i) <= r /\
+  (c <= grid t0 p (S i) -> r = grid t0 p (S i)) /\
+  (grid t0 p (S i) <= c -> r = c).
+Proof.
+  intros Hn H. apply (live_log_any ops _ _ _ _ _ (create_on_track p t0) Hn) in H.
+  cbn [create expiry period] in H.
+  assert (E : r = Z.max c (grid t0 p (S i))).
+  { rewrite H. unfold grid. rewrite Nat2Z.inj_succ. f_equal. lia. }
+  repeat split; lia.
+Qed.
+
+Lemma any_use_expiry p t0 ops :
+  no_release ops = true ->
+  let d := fst (final (create p t0, t0) ops) in
+  expiry d = grid t0 p (S (length (wait_log (create p t0, t0) ops))) /\
+  alarm d = Some (expiry d) /\ live d = true /\ period d = p /\ released d = 0%nat.
+Proof.
+  intros Hn.
+  destruct (final_live_any ops (create p t0) t0 (create_on_track p t0) Hn) as ((A1 & A2) & B & C & D).
+  cbv zeta. repeat split; try assumption.
+  rewrite D. unfold grid. cbn [create expiry period]. rewrite Nat2Z.inj_succ. lia.
+Qed.
+
+(* The object is built at t0, the with-block is entered [setup] microseconds
+   later: object, clock and the log of the loop are those of the plain loop
+   whose first body is longer by the set-up time -- the grid is still the one
+   anchored at t0, not at the instant of entry. *)
+Lemma entered_late_is_sched p t0 setup b bs :
+  wait_log (create p t0, t0) (entered_late setup (b :: bs)) =
+    wait_log (create p t0, t0) (sched ((setup + b) :: bs)) /\
+  final (create p t0, t0) (entered_late setup (b :: bs)) =
+    final (create p t0, t0) (sched ((setup + b) :: bs)).
+Proof.
+  unfold entered_late. rewrite !sched_cons. unfold final.
+  cbn [wait_log fold_left step enter fst snd]. rewrite Z.add_assoc. split; reflexivity.
+Qed.
+
+Lemma no_release_sched bs : no_release (sched bs) = true.
+Proof. induction bs as [|b bs IH]; [reflexivity|]. rewrite sched_cons. cbn. exact IH. Qed.
+
+Lemma no_release_entered_late setup bs : no_release (entered_late setup bs) = true.
+Proof. unfold entered_late. cbn. apply no_release_sched. Qed.
+
+Lemma entered_late_on_grid p t0 setup bs i c r :
+  nth_error (wait_log (create p t0, t0) (entered_late setup bs)) i = Some (c, r) ->
+  r = Z.max c (grid t0 p (S i)) /\ grid t0 p (S i) <= r /\
+  (c <= grid t0 p (S i) -> r = grid t0 p (S i)) /\
+  (grid t0 p (S i) <= c -> r = c).
+Proof. apply any_use_on_grid, no_release_entered_late. Qed.
